@@ -1,6 +1,7 @@
 package c18
 
 import (
+	"bytes"
 	"fmt"
 	"go/ast"
 	"go/token"
@@ -129,7 +130,58 @@ func apiProgram() output {
 	step("const", func() {
 		cb.NewConstStart(nil, "k").Val(1).Val(2).BinaryOp(token.ADD).EndInit(1)
 	})
+	step("labels-goto", func() {
+		l := cb.NewLabel(token.NoPos, token.NoPos, "L")
+		cb.Goto(l)
+		cb.Label(l)
+		if _, ok := cb.LookupLabel("L"); !ok {
+			panic("label lost")
+		}
+		cb.VarRef(cb.Scope().Lookup("sl")).Val(nil).Assign(1).EndStmt()
+	})
+	step("local-types", func() {
+		cb.NewType("Loc").InitType(pkg, T[types.Int])
+		cb.AliasType("LocA", T[types.Bool])
+		cb.NewTypeDefs().NewType("Loc2").InitType(pkg, T[types.String])
+	})
+	step("vblock", func() {
+		cb.VBlock()
+		if !cb.InVBlock() {
+			panic("not in vblock")
+		}
+		cb.VarRef(cb.Scope().Lookup("sl")).Val(nil).Assign(1).EndStmt()
+		cb.End()
+	})
+	step("accessors", func() {
+		verdicts = append(verdicts, fmt.Sprint(cb.Func() != nil, cb.Pkg() == pkg, cb.Comments() == nil, gogen.IsFunc(T[types.Int]), gogen.IsTypeEx(T[types.Int]),
+			gogen.Default(pkg, T[types.UntypedInt]), gogen.Lookup(pkg.Types.Scope(), "Pt") != nil, pkg.Offsetsof([]*types.Var{types.NewField(token.NoPos, pkg.Types, "a", T[types.Int8], false), types.NewField(token.NoPos, pkg.Types, "b", T[types.Int64], false)})))
+		if _, o := gogen.LookupParent(cb.Scope(), "sl", token.NoPos); o == nil {
+			panic("LookupParent lost sl")
+		}
+	})
+	step("instantiate", func() {
+		verdicts = append(verdicts, fmt.Sprint(pkg.Instantiate(T[types.Int], nil, gx.SrcNode("int[]")))) // reported error, not a crash
+	})
 	step("end", func() { cb.End() })
+	step("pkg-level", func() {
+		pkg.NewVarStart(token.NoPos, T[types.Int], "pv1").Val(1).EndInit(1)
+		pkg.NewVarEx(pkg.Types.Scope(), token.NoPos, T[types.String], "pv2")
+		pkg.NewConstStart(pkg.Types.Scope(), token.NoPos, nil, "PC").Val(7).EndInit(1)
+		fn := pkg.NewFunc(nil, "documented", nil, nil, false)
+		fn.SetComments(pkg, &ast.CommentGroup{List: []*ast.Comment{{Text: "// documented does nothing"}}})
+		fn.BodyStart(pkg).End()
+		verdicts = append(verdicts, fmt.Sprint(fn.Comments() != nil, fn.Ancestor() == fn))
+	})
+	step("ast", func() {
+		f := gogen.ASTFile(pkg)
+		cn := gogen.CommentedASTFile(pkg)
+		verdicts = append(verdicts, fmt.Sprint(len(f.Decls) > 0, cn != nil, gogen.TypeAST(pkg, intSl) != nil))
+		var buf bytes.Buffer
+		if err := gogen.WriteTo(&buf, pkg); err != nil {
+			panic(err)
+		}
+		verdicts = append(verdicts, fmt.Sprint(buf.Len() > 0))
+	})
 	step("second-file", func() {
 		old, err := pkg.SetCurFile("other.go", true)
 		if err != nil {
